@@ -34,7 +34,10 @@ def gen_case(g):
          "Win": (rng.normal(size=(n, m)) * g.choice([1.0, 5.0])).tolist(), "bias": rng.normal(size=n).tolist(),
          "U": (rng.normal(size=(T, m)) * scale).tolist(),
          "x0": (rng.uniform(-1, 1, size=n)).tolist(), "y0": (rng.uniform(-1, 1, size=n)).tolist(),
-         "mode": g.choice(["from_state", "reset_to"])}
+         "mode": g.choice(["from_state", "reset_to", "calls"])}
+    if g.chance(0.3):
+        c["lr_first"] = g.choice([v for v in (1.0, 0.5, 0.25, 0.9, 0.1) if v != c["lr"]])
+        c["lr_via"] = g.choice(["set_param", "hypers", "attr"])
     if act != "tanh" and g.chance(0.5):
         c["x0"] = (rng.normal(size=n) * 5).tolist()
         c["y0"] = (rng.normal(size=n) * 5).tolist()
@@ -50,14 +53,48 @@ def build(c):
                      bias=np.array(c["bias"]).reshape(n, 1), lr=c["lr"], activation=c["act"])
 
 
+class CallerArrayChanged(Exception):
+    pass
+
+
 def run_from(c, x0):
     r = build(c)
     U = np.array(c["U"]).reshape(len(c["U"]), c["m"])
     r.initialize(U[:1])
+    lr = c["lr"]
+    if c.get("lr_first") is not None:
+        # the reservoir is used with another leak rate first, then the rate is changed through the
+        # parameter interface: the dynamics must follow the new value
+        r2 = r
+        r2.set_param("lr", c["lr_first"])
+        r2.run(U[:2])
+        if c.get("lr_via") == "hypers":
+            r2.hypers["lr"] = lr
+        elif c.get("lr_via") == "attr":
+            r2.lr = lr
+        else:
+            r2.set_param("lr", lr)
+    mine = np.array(x0, dtype=float).reshape(1, -1)       # the caller's own array
+    keep = mine.copy()
     if c["mode"] == "from_state":
-        return np.asarray(r.run(U, from_state=np.array(x0).reshape(1, -1)), dtype=float)
-    r.reset(to_state=np.array(x0).reshape(1, -1))
-    return np.asarray(r.run(U), dtype=float)
+        out = np.array(r.run(U, from_state=mine), dtype=float)
+    elif c["mode"] == "calls":
+        rows, x = [], mine
+        for t in range(len(U)):
+            x_in = x
+            before = np.array(x_in, dtype=float).copy()
+            y = r.call(U[t:t + 1], from_state=x_in)
+            if not np.array_equal(np.asarray(x_in, dtype=float), before):
+                raise CallerArrayChanged(f"call(u, from_state=x) overwrote the caller's array x at step {t}")
+            rows.append(np.array(y, dtype=float).reshape(-1).copy())
+            x = np.array(y, dtype=float)
+        out = np.array(rows)
+    else:
+        r.reset(to_state=mine)
+        out = np.array(r.run(U), dtype=float)
+    if not np.array_equal(mine, keep):
+        raise CallerArrayChanged(f"the array handed over as initial state ({c['mode']}) was overwritten by the reservoir")
+    return out
 
 
 def check_cases(ctx, cases):
@@ -76,9 +113,11 @@ def check_cases(ctx, cases):
         ob = "contraction/" + c["act"]
         ctx.count(c, nontrivial=len(c["U"]) >= 3, obligation=ob)
         ctx.stat(f"act={c['act']} lr={c['lr']} sigma={c['sigma_target']} fmt={c['fmt']} mode={c['mode']}")
+        ctx.stat(f"lr_change={c.get('lr_via')}")
         ctx.sample({k: c[k] for k in ("n", "m", "act", "lr", "sigma_target", "fmt", "mode")} | {"T": len(c["U"])})
         if r[0] != "ok":
-            ctx.violation(f"Reservoir.run raised {r[1]}", c, obligation=ob)
+            ctx.violation(f"Reservoir.run raised {r[1]}" + (" - the caller's state array was modified by the reservoir, so distances between the "
+                          "states the caller holds no longer contract" if "CallerArrayChanged" in str(r[1]) else ""), c, obligation=ob)
             continue
         X, Y = r[1]
         W = np.array(c["W"]).reshape(c["n"], c["n"])
